@@ -21,26 +21,29 @@ LO, HI, BITS, KEY = Lin.sym("lo"), Lin.sym("hi"), Lin.sym("bits"), \
 
 def check(run, repo, world):
     run.explanation = (
-        "(R-FRAME-LANES) the slice/bit arithmetic of Frame.__getitem__, "
-        "__setitem__ and __add__ is abstractly interpreted in a symbolic "
-        "bit-lane algebra (segments with end points linear in lo, hi, bits, "
-        "key; order decided exactly from 0 <= lo <= hi <= bits-1 which "
-        "_readslice establishes): reading [hi:lo] yields exactly data lanes "
-        "lo..hi; writing keeps data on [0,lo) and (hi,bits), places value "
-        "lanes 0..W-1 on lo..hi and nothing at or above `bits`; the fit "
-        "guards reject exactly the values with a lane >= W (none below); "
-        "bit set/clear touch lane key only; concatenation puts the left "
-        "operand in the high lanes - proved for every width at once, "
-        "without enumerating values.  (R-FRAME-VBM) every raise precedes "
-        "every store in __setitem__, so a rejected operation leaves the "
-        "frame unchanged.  (R-FRAME-EXC) guard -> exception class table vs "
-        "the documented one.  (R-FRAME-OWN) _data/_bits/_error are written "
-        "only by Frame's own methods.  (R-FRAME-VIEW) views read only "
-        "_data/_bits and encode big-endian.  NOT decided: agreement with a "
-        "list-of-bits model over arbitrary operation histories beyond the "
-        "per-operation lane semantics (the invariant 0 <= data < 2^bits is "
-        "shown to be preserved by each mutator, which is the inductive "
-        "step).")
+        "Frame's methods are normalised (helper calls inlined) and reduced "
+        "to path summaries.  (R-FRAME-LANES / R-FRAME-EXC) for each method "
+        "and key kind the union of the conditions of the paths raising E is "
+        "shown equivalent - as a formula over difference constraints and "
+        "propositions, decided exactly - to the documented illegal region of "
+        "class E, separately for key.start >= key.stop and key.stop > "
+        "key.start; the effect of every completing path is evaluated in a "
+        "symbolic bit-lane algebra (segments with end points linear in lo, "
+        "hi, bits, key; order decided from the path's own facts): reading "
+        "[hi:lo] yields exactly data lanes lo..hi; writing keeps data on "
+        "[0,lo) and (hi,bits), places value lanes 0..W-1 on lo..hi and "
+        "nothing at or above `bits`; bit set/clear touch lane key only; "
+        "concatenation puts the left operand in the high lanes - proved for "
+        "every width at once, without enumerating values.  (R-FRAME-VBM) no "
+        "path raises after a store and the width is never stored.  "
+        "(R-FRAME-OWN) _data/_bits/_error are written only by Frame's own "
+        "methods.  (R-FRAME-VIEW) as_integer/pack/pack_len/as_byte_sequence "
+        "denote the same number big-endian with ceil(width/8) bytes for "
+        "every width (residue classes), equality is same width and same "
+        "bits (formula equivalence), membership tests all `width` lanes.  "
+        "NOT decided: agreement with a list-of-bits model over arbitrary "
+        "operation histories beyond the per-operation semantics (0 <= data "
+        "< 2^bits is shown preserved by each mutator: the inductive step).")
     run.assumptions += ["Python ints are unbounded; << >> & | ^ have their "
                         "mathematical meaning on non-negative ints",
                         "int.bit_length() > n  <=>  value >= 2^n"]
